@@ -2,6 +2,13 @@ package rules
 
 func init() {
 	register(&Prop{
+		ID:    "C16",
+		Rules: []*Rule{rDepth},
+		Explain: "Decides the depth arithmetic of every exported stack-capturing or domain-computing function of the root package, errutil, withstack and domains, for ALL depths and all forwarding paths at once (affine equation S = 1 [+ depth]). " +
+			"NOT decided: GetOneLineSource's text parsing; the Go runtime's skip semantics (inlined frames) are trusted.",
+		Trusted: []string{"go/ssa", "semantics of runtime.Callers(skip)/runtime.Caller(skip) incl. inlined frames"},
+	})
+	register(&Prop{
 		ID:    "C10",
 		Rules: []*Rule{rNil},
 		Explain: "Decides the nil clauses of the property for every exported constructor on every path (nilness abstract interpretation, no execution). " +
